@@ -22,6 +22,8 @@ def _worker(job):
     cfg = Config(label=label, opaque=cfgd.get("opaque", ()), cell_init=cfgd.get("cell_init"),
                  drain_kinds=cfgd.get("drain_kinds"), self_init=cfgd.get("self_init"))
     cfg.default_states = cfgd.get("default_states")
+    for fl in cfgd.get("flags", ()):
+        setattr(cfg, fl, True)
     I = Interp(facts, uni, layout, cfg)
     body = facts.body(entry)
     t0 = time.time()
